@@ -588,6 +588,76 @@ func main() {
 			t.Outcome("exact")
 		})
 
+		// "For every message": messages at the far end of what DEFLATE can do - megabytes of one
+		// byte or of a 2..4-byte period compress about 1000:1 - through the writer, the reader and
+		// every helper that inflates; and incompressible megabytes for the other end.
+		r.Part("E2d-extreme-compression-ratios", func(t *explore.T) {
+			type big struct {
+				name string
+				data []byte
+			}
+			var bigs []big
+			for _, n := range []int{3 << 20, 6 << 20, 8<<20 + 5} {
+				bigs = append(bigs, big{fmt.Sprintf("%d x 'a'", n), bytes.Repeat([]byte{'a'}, n)})
+			}
+			bigs = append(bigs, big{"4 MiB of zero bytes", make([]byte, 4<<20)}, big{"5 MiB of abcd", bytes.Repeat([]byte("abcd"), 5<<18)}, big{"2 MiB incompressible", lcg(2<<20, 5)})
+			t.Par(len(bigs), func(i int) {
+				b := bigs[i]
+				for _, lv := range []int{1, 6, 9} {
+					lv := lv
+					t.Do(func() string { return fmt.Sprintf("%s, compressor level %d: Writer, then Reader and the inflating helpers", b.name, lv) }, func() *explore.Fail {
+						var cb bytes.Buffer
+						w := wsflate.NewWriter(&cb, func(w io.Writer) wsflate.Compressor {
+							f, _ := flate.NewWriter(w, lv)
+							return f
+						})
+						if _, err := w.Write(b.data); err != nil {
+							return explore.Failf("big-write", "%v", err)
+						}
+						if err := w.Flush(); err != nil {
+							return explore.Failf("big-flush", "%v", err)
+						}
+						comp := append([]byte{}, cb.Bytes()...)
+						out, _, ierr := refmodel.Inflate(append(append([]byte{}, comp...), tail...))
+						if ierr != nil || !bytes.Equal(out, b.data) {
+							return explore.Failf("big-writer-output-not-deflate", "%v (%d of %d bytes)", ierr, len(out), len(b.data))
+						}
+						got, err := io.ReadAll(wsflate.NewReader(bytes.NewReader(comp), newDecomp))
+						if err != nil || !bytes.Equal(got, b.data) {
+							return explore.Failf("big-reader", "%v (%d of %d bytes)", err, len(got), len(b.data))
+						}
+						h := wsflate.Helper{Compressor: func(w io.Writer) wsflate.Compressor {
+							f, _ := flate.NewWriter(w, lv)
+							return f
+						}, Decompressor: newDecomp}
+						for _, hh := range []*wsflate.Helper{&h, &wsflate.DefaultHelper} {
+							d, err := hh.Decompress(comp)
+							if err != nil || !bytes.Equal(d, b.data) {
+								return explore.Failf("big-Helper.Decompress", "%v: %d of %d bytes (%d compressed)", err, len(d), len(b.data), len(comp))
+							}
+							var db bytes.Buffer
+							if err := hh.DecompressTo(&db, comp); err != nil || !bytes.Equal(db.Bytes(), b.data) {
+								return explore.Failf("big-Helper.DecompressTo", "%v: %d of %d bytes", err, db.Len(), len(b.data))
+							}
+							f, err := hh.DecompressFrame(ws.Frame{Header: ws.Header{Fin: true, Rsv: 4, OpCode: ws.OpBinary, Length: int64(len(comp))}, Payload: comp})
+							if err != nil || !bytes.Equal(f.Payload, b.data) || f.Header.Length != int64(len(b.data)) {
+								return explore.Failf("big-Helper.DecompressFrame", "%v: %d of %d bytes", err, len(f.Payload), len(b.data))
+							}
+							c2, err := hh.Compress(b.data)
+							if err != nil {
+								return explore.Failf("big-Helper.Compress", "%v", err)
+							}
+							if d2, err := hh.Decompress(c2); err != nil || !bytes.Equal(d2, b.data) {
+								return explore.Failf("big-Helper-roundtrip", "%v: %d of %d bytes", err, len(d2), len(b.data))
+							}
+						}
+						return nil
+					})
+				}
+			})
+			t.Outcome("recovered")
+		})
+
 		r.Part("E3-frame-helpers", func(t *explore.T) {
 			for _, p := range payloads(false) {
 				for fin := 0; fin < 2; fin++ {
